@@ -34,6 +34,7 @@ func extractFlush(t *T) (string, error) {
 	}
 	type hinfo struct {
 		flushes []string
+		depths  []int // per flush call: number of if/switch/for bodies around it inside the innermost function (literal)
 		issued  bool
 	}
 	handlers := map[string]*hinfo{}
@@ -57,7 +58,45 @@ func extractFlush(t *T) (string, error) {
 			}
 			name := fd.Name.Name
 			hi := &hinfo{}
+			var stack []ast.Node
+			condDepth := func() int {
+				// count the conditional bodies (if body / else, case clause, loop body) between the call and the innermost
+				// enclosing function literal (or the handler itself); the `if err := flush(...); err != nil` wrapper is an
+				// Init statement, not a body, and does not count
+				d := 0
+				for i := len(stack) - 1; i >= 1; i-- {
+					switch stack[i].(type) {
+					case *ast.FuncLit:
+						return d
+					case *ast.BlockStmt:
+						switch par := stack[i-1].(type) {
+						case *ast.IfStmt:
+							if par.Body == stack[i] || par.Else == stack[i] {
+								d++
+							}
+						case *ast.ForStmt, *ast.RangeStmt:
+							d++
+						}
+					case *ast.CaseClause, *ast.CommClause:
+						d++
+					case *ast.IfStmt:
+						if i+1 < len(stack) {
+							if par := stack[i].(*ast.IfStmt); par.Else == stack[i+1] {
+								if _, isIf := stack[i+1].(*ast.IfStmt); isIf {
+									d++
+								}
+							}
+						}
+					}
+				}
+				return d
+			}
 			ast.Inspect(fd.Body, func(nd ast.Node) bool {
+				if nd == nil {
+					stack = stack[:len(stack)-1]
+					return true
+				}
+				stack = append(stack, nd)
 				call, ok := nd.(*ast.CallExpr)
 				if !ok {
 					return true
@@ -66,6 +105,7 @@ func extractFlush(t *T) (string, error) {
 				case *ast.Ident:
 					if fn.Name == "flush" && len(call.Args) == 4 {
 						hi.flushes = append(hi.flushes, boolLit(call.Args[2]))
+						hi.depths = append(hi.depths, condDepth())
 					}
 				case *ast.SelectorExpr:
 					if fn.Sel.Name == "ExpungeIssued" {
@@ -73,6 +113,7 @@ func extractFlush(t *T) (string, error) {
 					}
 					if fn.Sel.Name == "Flush" && len(call.Args) == 2 && name != "flush" {
 						hi.flushes = append(hi.flushes, boolLit(call.Args[1]))
+						hi.depths = append(hi.depths, condDepth())
 					}
 				}
 				return true
@@ -192,6 +233,20 @@ func extractFlush(t *T) (string, error) {
 			sep = ""
 		}
 		sb.WriteString(fmt.Sprintf("  (%s, [%s])%s\n", coqString(n), strings.Join(handlers[n].flushes, "; "), sep))
+	}
+	sb.WriteString("].\n\n")
+	sb.WriteString("(* handler -> for each flush call, the number of conditional bodies (if / else / case / loop) around it inside the\n   innermost enclosing function literal: 0 = performed whenever control reaches that function (body) *)\n")
+	sb.WriteString("Definition flush_guard_depths : list (string * list nat) := [\n")
+	for i, n := range names {
+		sep := ";"
+		if i == len(names)-1 {
+			sep = ""
+		}
+		ds := make([]string, len(handlers[n].depths))
+		for j, d := range handlers[n].depths {
+			ds[j] = fmt.Sprint(d)
+		}
+		sb.WriteString(fmt.Sprintf("  (%s, [%s]%%nat)%s\n", coqString(n), strings.Join(ds, "; "), sep))
 	}
 	sb.WriteString("].\n\n")
 	sb.WriteString("(* the flush that handleSelectedCommand performs after every selected-state handler *)\n")
